@@ -300,6 +300,17 @@ func withHelpers(fn *ssa.Function) []*ssa.Function {
 						seen[callee] = true
 						out = append(out, callee)
 					}
+					// a function literal handed to a helper that only calls it
+					for _, a := range c.Call.Args {
+						if mc, isMC := a.(*ssa.MakeClosure); isMC {
+							if lf, _ := mc.Fn.(*ssa.Function); lf != nil && !seen[lf] {
+								if oc, _, _ := passedVia(lf); oc == c {
+									seen[lf] = true
+									out = append(out, lf)
+								}
+							}
+						}
+					}
 				}
 				if d, ok := in.(*ssa.Defer); ok {
 					if callee := d.Call.StaticCallee(); callee != nil && !seen[callee] && callee.Parent() != nil && calledLiteral(callee) {
@@ -1495,6 +1506,33 @@ func walkPathsP(start Loc, terminal func(ssa.Instruction) bool, edgeOK func(b *s
 	var build func(fn *ssa.Function, depth int) *frame
 	build = func(fn *ssa.Function, depth int) *frame {
 		fr := &frame{fn: fn}
+		if oc, h, ic := passedVia(fn); oc != nil && depth < 3 && theWorld != nil {
+			// a literal handed to a helper that calls it: literal ← helper ← the function that wrote the literal
+			outerFr := build(oc.Parent(), depth+1)
+			hfr := &frame{fn: h, call: oc, parent: outerFr, retBlock: oc.Block(), depth: outerFr.depth + 1}
+			for i, in := range oc.Block().Instrs {
+				if in == ssa.Instruction(oc) {
+					hfr.retIdx = i + 1
+				}
+			}
+			outerFr.midB, outerFr.midI = oc.Block(), hfr.retIdx
+			if pc.children[outerFr] == nil {
+				pc.children[outerFr] = map[*ssa.Call]*frame{}
+			}
+			pc.children[outerFr][oc] = hfr
+			fr.parent, fr.call, fr.retBlock, fr.depth = hfr, ic, ic.Block(), hfr.depth+1
+			for i, in := range ic.Block().Instrs {
+				if in == ssa.Instruction(ic) {
+					fr.retIdx = i + 1
+				}
+			}
+			hfr.midB, hfr.midI = ic.Block(), fr.retIdx
+			if pc.children[hfr] == nil {
+				pc.children[hfr] = map[*ssa.Call]*frame{}
+			}
+			pc.children[hfr][ic] = fr
+			return fr
+		}
 		if depth < 3 && theWorld != nil && isHelper(fn) {
 			if sites := theWorld.callSitesOf(fn); len(sites) == 1 {
 				c := sites[0]
